@@ -272,8 +272,19 @@ def render_jobs(Job, cfg=CFG_NDEBUG, tier="quick"):
                 defines=list(cfg[1]), extract=ext(["hexdump_bytes"]), tier=tier, cover=True, solver="portfolio", timeout=900)]
 
 
+def listtype_jobs(Job, cfg=CFG_NDEBUG, tier="quick"):
+    # the loops are closed by loop contracts (any number of iterations); BODY_MAX only sizes the model's byte arrays:
+    # 4 KiB in the quick tier, the full 18-bit file length in the thorough tier
+    def J(name, entry, enforce, cap, t):
+        return Job("D_%s_%s_cap%d" % (name, cfg[0], cap), "harness/dfs_listtype.c", entry, enforce=enforce, loops=True,
+                   defines=list(cfg[1]) + ["BODY_MAX=%dul" % cap], extract=ext(["list_body", "type_body"]), tier=t, cover=True,
+                   solver="portfolio", timeout=1800)
+    return [J("list_body", "h_list", ["list_body"], 4096, tier), J("type_body", "h_type", ["type_body"], 4096, tier),
+            J("list_body", "h_list", ["list_body"], 1 << 18, "thorough"), J("type_body", "h_type", ["type_body"], 1 << 18, "thorough")]
+
+
 def c01_extra(Job, tier):
-    return render_jobs(Job)
+    return render_jobs(Job) + listtype_jobs(Job)
 
 
 # ---- C02 extra: the info line ------------------------------------------------------------------------------------
